@@ -301,21 +301,17 @@ def iter : DRow → Res (List Val)
   | label r _ _ => iter r
   | dropOne r ind => match iter r with | .ok xs => .ok (xs.take ind ++ xs.drop (ind + 1)) | .error e => .error e
 
-/-- `feats` / `label` / `labeled` are properties of LabelDense only: `__getattr__` does not pass them on through a wrapper
-(fixes/C13-stale-feats-label.diff), so a label made stale by a later stage cannot be read -/
+/-- the label wrapper reached through `__getattr__` forwarding (`feats`, `label`, `tipe`): every later wrapper passes these
+attributes on unchanged, so they describe the row as it was when LabelRows saw it (recorded C13-F8; the proposed
+fixes/C13-stale-feats-label.diff was not applied, see notes) -/
 def labelOf : DRow → Option (DRow × Nat × Option String)
-  | label r i t => some (r, i, t)
-  | _ => none
-
-/-- `tipe` is still forwarded by `__getattr__` (a later stage does not change it) -/
-def tipeOf : DRow → Option (Option String)
   | plain _ => none
   | lazy _ _ _ _ => none
-  | head r _ => tipeOf r
-  | encode r _ => tipeOf r
-  | keep r _ _ _ _ _ => tipeOf r
-  | label _ _ t => some t
-  | dropOne r _ => tipeOf r
+  | head r _ => labelOf r
+  | encode r _ => labelOf r
+  | keep r _ _ _ _ _ => labelOf r
+  | label r i t => some (r, i, t)
+  | dropOne r _ => labelOf r
 
 def feats (r : DRow) : Res DRow :=
   match labelOf r with
@@ -328,8 +324,8 @@ def labelVal (r : DRow) : Res Val :=
   | none => .error .attrError
 
 def tipe (r : DRow) : Res (Option String) :=
-  match tipeOf r with
-  | some t => .ok t
+  match labelOf r with
+  | some (_, _, t) => .ok t
   | none => .error .attrError
 
 /-- `Dense_.__eq__(self, o)` for a list-like `o`: `len(self)==len(o) and all(map(eq,self,o))`, any exception → False -/
@@ -525,18 +521,14 @@ def items : SRow → Res Dict
 /-- `dict(pairs)` -/
 def toDict (its : Dict) : Dict := its.foldl (fun d p => dset d p.1 p.2) []
 
-/-- `feats` / `label` / `labeled` are properties of LabelSparse only (not forwarded, fixes/C13-stale-feats-label.diff) -/
+/-- the label wrapper reached through `__getattr__` forwarding (recorded C13-F9) -/
 def labelOf : SRow → Option (SRow × Key × Option String)
-  | label r k t => some (r, k, t)
-  | _ => none
-
-def tipeOf : SRow → Option (Option String)
   | plain _ => none
   | lazy _ _ _ _ _ _ => none
-  | head r _ _ => tipeOf r
-  | encode r _ _ => tipeOf r
-  | drop r _ => tipeOf r
-  | label _ _ t => some t
+  | head r _ _ => labelOf r
+  | encode r _ _ => labelOf r
+  | drop r _ => labelOf r
+  | label r k t => some (r, k, t)
 
 def feats (r : SRow) : Res SRow :=
   match labelOf r with
@@ -549,8 +541,8 @@ def labelVal (r : SRow) : Res Val :=
   | none => .error .attrError
 
 def tipe (r : SRow) : Res (Option String) :=
-  match tipeOf r with
-  | some t => .ok t
+  match labelOf r with
+  | some (_, _, t) => .ok t
   | none => .error .attrError
 
 /-- python `dict == dict` on association lists with distinct keys -/
@@ -623,16 +615,18 @@ def keyStr : Key → String
 def flatSet (d : Dict) (k : Key) (h : List Int) : Dict :=
   (h.zipIdx.drop 1).foldl (fun d p => dset d (Key.name (keyStr k ++ "_" ++ toString p.1)) (Val.int p.2)) d
 
+/-- what EncodeCatRows does to the dict `o` for one entry `p` of the row -/
+def catStep (m : CatMode) (o : Dict) (p : Key × Val) : Dict :=
+  match p.2 with
+  | .cat s lv =>
+    match m with
+    | .string => dset o p.1 (Val.str s)
+    | .onehotTuple => dset o p.1 (Val.tup (onehotOf s lv))
+    | .onehot => flatSet (ddel o p.1) p.1 (onehotOf s lv)
+  | _ => o
+
 /-- EncodeCatRows on a dict (keys visited in the dict's own order) -/
-def catEncodeDict (m : CatMode) (d : Dict) : Dict :=
-  d.foldl (fun o p =>
-    match p.2 with
-    | .cat s lv =>
-      match m with
-      | .string => dset o p.1 (Val.str s)
-      | .onehotTuple => dset o p.1 (Val.tup (onehotOf s lv))
-      | .onehot => flatSet (ddel o p.1) p.1 (onehotOf s lv)
-    | _ => o) d
+def catEncodeDict (m : CatMode) (d : Dict) : Dict := d.foldl (catStep m) d
 
 def zipNames (ns : List String) : Hdr := ns.zipIdx
 
@@ -1321,6 +1315,92 @@ def uniformRun : List Stage → List DRow → Bool
 /-- the dense table as the code computes it: stage after stage, every stage looking at the first incoming row -/
 def tableD1 (stages : List Stage) (rows : List DBase) : Res (List DRow) := runStages1 stages (rows.map baseD)
 
+/-! ## the first dict of a sparse table
+
+On dict rows two filters look at the first incoming row only: `LabelRows` reads `first._inv` (the map raw key → header name with
+which a positional label is translated), `EncodeCatRows` reads `catkey(first.copy())` (the keys whose values are categoricals)
+and then does `o[k] = str(o[k])` / `o[k].as_onehot` / `o.pop(k).as_onehot` at exactly those keys in every row.
+`applyS` derives both from each row itself; `applyS1` is the literal version; `sameShapeS` says when the two coincide. -/
+
+/-- `catkey(first)`: the keys of the categorical entries, in the dict's order -/
+def catKeysD (d : Dict) : List Key := (d.filter (fun p => isCat p.2)).map (·.1)
+
+/-- `catset` for one key that the first dict has as categorical -/
+def encodeAtKey (m : CatMode) (o : Dict) (k : Key) : Res Dict :=
+  match dget o k with
+  | none => .error .keyError
+  | some v =>
+    match m with
+    | .string => match Enc.toStr.apply v with | .ok x => .ok (dset o k x) | .error e => .error e
+    | .onehotTuple => match v with | .cat s lv => .ok (dset o k (Val.tup (onehotOf s lv))) | _ => .error .attrError
+    | .onehot => match v with | .cat s lv => .ok (flatSet (ddel o k) k (onehotOf s lv)) | _ => .error .attrError
+
+/-- EncodeCatRows on a dict with the categorical keys `ks` taken from the first dict -/
+def catEncodeAtD (m : CatMode) : List Key → Dict → Res Dict
+  | [], o => .ok o
+  | k :: ks, o => match encodeAtKey m o k with | .ok o' => catEncodeAtD m ks o' | .error e => .error e
+
+/-- one `*Rows.filter` on one sparse row, its arguments derived from the first row `f` of the incoming table -/
+def applyS1 : Stage → SRow → SRow → Res (Option SRow)
+  | .label k t, f, r => .ok (some (.label r (labelKey f.invOf k) t))
+  | .enccat (some m), f, r =>
+    match f.items with
+    | .error e => .error e
+    | .ok fits =>
+      -- no categorical in the first dict: `yield from rows`, no row is touched (not even materialised)
+      if (catKeysD (SRow.toDict fits)).isEmpty then .ok (some r)
+      else
+        match r.items with
+        | .error e => .error e
+        | .ok its =>
+          match catEncodeAtD m (catKeysD (SRow.toDict fits)) (SRow.toDict its) with
+          | .ok o => .ok (some (.plain o))
+          | .error e => .error e
+  | st, _, r => applyS st r
+
+/-- the names `f'{k}_{v}'` the flat one-hot encoding adds for key `k` -/
+def genNames (k : Key) (h : List Int) : List Key := (h.zipIdx.drop 1).map (fun p => Key.name (keyStr k ++ "_" ++ toString p.1))
+
+/-- none of the names the flat one-hot encoding adds is already a key of the dict -/
+def noClash (d : Dict) : Bool :=
+  d.all (fun p => match p.2 with
+    | .cat s lv => (genNames p.1 (onehotOf s lv)).all (fun g => !(d.map (·.1)).contains g)
+    | _ => true)
+
+/-- the two dict rows look alike to the filters: same `_inv`, categoricals at the same keys (in the same order);
+and the row's own keys are distinct and do not clash with the generated one-hot names -/
+def sameShapeS (f r : SRow) : Bool :=
+  f.invOf == r.invOf &&
+  (match f.items, r.items with
+   | .ok a, .ok b =>
+     catKeysD (SRow.toDict a) == catKeysD (SRow.toDict b) && decide ((SRow.toDict b).map (·.1)).Nodup && noClash (SRow.toDict b)
+   | _, _ => false)
+
+def stageTableS1 (st : Stage) (rows : List SRow) : Res (List SRow) :=
+  match rows with
+  | [] => .ok []
+  | f :: _ => collect (mapMRes (applyS1 st f) rows)
+
+def stageTableS0 (st : Stage) (rows : List SRow) : Res (List SRow) := collect (mapMRes (applyS st) rows)
+
+def runStagesS1 : List Stage → List SRow → Res (List SRow)
+  | [], rows => .ok rows
+  | st :: rest, rows => match stageTableS1 st rows with | .ok rows' => runStagesS1 rest rows' | .error e => .error e
+
+def runStagesS0 : List Stage → List SRow → Res (List SRow)
+  | [], rows => .ok rows
+  | st :: rest, rows => match stageTableS0 st rows with | .ok rows' => runStagesS0 rest rows' | .error e => .error e
+
+/-- at every stage all incoming dict rows look like the first one -/
+def uniformRunS : List Stage → List SRow → Bool
+  | [], _ => true
+  | st :: rest, rows =>
+    (match rows with | [] => true | f :: _ => rows.all (sameShapeS f)) &&
+    (match stageTableS1 st rows with | .ok rows' => uniformRunS rest rows' | .error _ => true)
+
+/-- the sparse table as the code computes it: stage after stage, every stage looking at the first incoming row -/
+def tableS1 (stages : List Stage) (rows : List SBase) : Res (List SRow) := runStagesS1 stages (rows.map baseS)
+
 /-! ## one set of filter objects, several tables -/
 
 /-- a table and the stages applied to it by filter objects of its own (`pre`), before the shared filter objects -/
@@ -1338,7 +1418,7 @@ afterwards.  None of the `*Rows.filter` methods assigns an attribute of `self` (
 first row are locals), so the objects are what they were. -/
 def runTable (fs : List Stage) : Table → TableOut × List Stage
   | .dense pre rows => (.dense (tableD1 (pre ++ fs) rows), fs)
-  | .sparse pre rows => (.sparse (tableS (pre ++ fs) rows), fs)
+  | .sparse pre rows => (.sparse (tableS1 (pre ++ fs) rows), fs)
 
 /-- the same filter objects process the tables one after the other -/
 def session : List Stage → List Table → List TableOut
